@@ -56,6 +56,7 @@ def merge(a, b):
             a[k][kk] = a[k].get(kk, 0) + v
     a["viol"].extend(b["viol"])
     a["max_ratio"] = max(a["max_ratio"], b["max_ratio"])
+    a["max_cpu"] = max(a.get("max_cpu", 0.0), b.get("max_cpu", 0.0))
     a["nontrivial"] |= set(b["nontrivial"])
     a["dropped"] |= set(b["dropped"])
     return a
@@ -248,6 +249,8 @@ def check(args):
                 "faults_fired": dict(sorted(s["fired"].items())),
                 "simulated_time": {"unit": "function entries + jumps in xsdata code (sys.monitoring)", "total": s["steps"]},
                 "max_step_ratio_vs_valid_document": round(s["max_ratio"], 2),
+                "max_cpu_seconds_single_case": round(s.get("max_cpu", 0.0), 3),
+                "cpu_rule": "a case that uses more than 1 s of CPU and more than 300x the (size-scaled) CPU of its valid document is re-run alone and reported as 'slow' if it does so again",
                 "step_budget": "20 x steps(valid document) x max(1, delivered size / valid size) + 20000",
                 "not_wellformed_inputs": s["wf_rejects"],
                 "native_handler_rejected_not_wellformed": s["native_rejected_malformed"],
